@@ -72,6 +72,7 @@ class Env:
         self.evclasses = {}
         self.opi = -1
         self.listen_order = []
+        self.probe_errors = []
         self.shared = {}
         self.api_exc = []             # [api, waiter id or component, exception class, callback kind] of calls that raised
         self.silent = []              # waiters whose invocation the harness cannot observe (callback None, sink without _all_dependencies_met)
@@ -384,7 +385,10 @@ class Env:
                 if comp is self.core or not hasattr(comp, "_eventMixin_events"): continue
                 self.probe_comp = name
                 for e in sorted(comp._eventMixin_events, key=lambda c: c.__name__):
-                    comp.raiseEvent(e())
+                    try:
+                        comp.raiseEvent(e())
+                    except Exception as ex:          # e.g. something that is not callable was bound as a listener
+                        self.probe_errors.append([name, e.__name__, type(ex).__name__])
             sink_attrs = {}
             for k, lst in self.sinks.items():
                 for wid, sink in lst:
@@ -396,7 +400,7 @@ class Env:
             threading.Thread, time.sleep, gc.collect, pc.log = saved
         return {"log": self.log, "marks": marks, "after": after, "op_exc": op_exc, "decls": self.decls,
                 "comps": list(self.core.components), "pending": pending, "outstanding": internal_out,
-                "hits": sorted(self.hits), "sink_attrs": sink_attrs, "listen_order": self.listen_order, "silent": self.silent, "runaway": self.runaway, "api_exc": self.api_exc}
+                "hits": sorted(self.hits), "sink_attrs": sink_attrs, "listen_order": self.listen_order, "silent": self.silent, "runaway": self.runaway, "api_exc": self.api_exc, "probe_errors": self.probe_errors}
 
 
 def segments(log, marks):
@@ -964,6 +968,8 @@ class C08(Check):
                 end = marks[op_of(p)] if op_of(p) < len(marks) else len(log)
                 if not (dn and p < dn[0] < end): return "lifecycle:Down-missing-after-GoingDown | GoingDownEvent not followed by DownEvent in the same operation"
         # ---- wiring of listen_to_dependencies
+        for name, ev, exc in obs["probe_errors"]:
+            return "wiring:listener-raised:%s | raising %s on component %s made a bound listener raise %s" % (exc, ev, name, exc)
         final = set(obs["comps"])
         counts = {}
         for k, attr, comp, ev in obs["hits"]:
